@@ -51,11 +51,22 @@ type c19Decoder struct {
 	// encoding (last occurrence wins), no suffix on an inner component =
 	// singular sub-message (occurrences are merged).
 	IndexPaths []string
+	// Ranges are further integer fields that the decoder narrows (e.g. int32
+	// on the wire to int8 in the value); same path syntax as IndexPaths.
+	Ranges []c19Range
 	// SkipAccessors lists zero-argument exported methods that must not be
 	// called (documented to panic or to have side effects).
 	SkipAccessors []string
 	// Use optionally exercises more accessors (nested values).
 	Use func(v c19Codec)
+}
+
+// c19Range bounds an integer field that the decoder converts to a narrower
+// type: an accepted input must carry a value within [Min, Max].
+type c19Range struct {
+	Path     string
+	Min, Max int64
+	Signed   bool // int32 on the wire (else uint32)
 }
 
 // ---------------------------------------------------------------------------
@@ -430,10 +441,10 @@ func c19CanonValue(sb *strings.Builder, v reflect.Value, depth int) {
 		if !isNilPtr {
 			switch x := v.Interface().(type) {
 			case *big.Int:
-				sb.WriteString("big:" + x.String())
+				sb.WriteString("big:" + x.Text(16))
 				return
 			case big.Int:
-				sb.WriteString("big:" + x.String())
+				sb.WriteString("big:" + x.Text(16))
 				return
 			case time.Time:
 				sb.WriteString("time:" + x.UTC().Format(time.RFC3339Nano))
@@ -536,7 +547,7 @@ func c19BigStr(x *big.Int) string {
 	if x == nil {
 		return "nil"
 	}
-	return x.String()
+	return x.Text(16)
 }
 
 // ---------------------------------------------------------------------------
@@ -818,8 +829,9 @@ func (c *c19Runner) run(di int) {
 			continue
 		}
 		c.use(w, desc)
-		if len(bases) < nBases {
-			// damage bases: the encoding with map entries in a fixed order
+		if len(bases) < nBases && !(len(enc) > 2048 && len(bases) >= (nBases+2)/3) {
+			// damage bases (fewer for multi-kilobyte encodings, whose
+			// generated values all share one structure): the encoding with map entries in a fixed order
 			if tree, ok := c19Parse(enc, "", 0); ok {
 				c19Normalize(tree)
 				enc = c19Emit(nil, tree)
@@ -1008,6 +1020,33 @@ func (c *c19Runner) probe(in []byte, class, spec string) {
 			}
 		} else {
 			r.Count("index_check_skipped", 1)
+		}
+	}
+
+	// other narrowed integer fields carried by the accepted input
+	if len(d.Ranges) > 0 {
+		if tree, ok := c19Parse(in, "", 0); ok {
+			for _, rg := range d.Ranges {
+				var vals []uint32
+				if !c19IndexEval(tree, strings.Split(rg.Path, "."), &vals) {
+					r.Count("range_check_skipped", 1)
+					continue
+				}
+				for _, v := range vals {
+					x := int64(v)
+					if rg.Signed {
+						x = int64(int32(v))
+					}
+					r.Count("range_values_checked", 1)
+					if x < rg.Min || x > rg.Max {
+						r.Violation(c.prefix+"field-range-overflow",
+							fmt.Sprintf("decoder accepted an input whose field at wire path %s is %d, outside [%d, %d] of the narrower type it is converted to", rg.Path, x, rg.Min, rg.Max),
+							full, map[string]interface{}{"path": rg.Path, "wire_value": x, "decoded": c19Clip(c19Canon(w))})
+					}
+				}
+			}
+		} else {
+			r.Count("range_check_skipped", 1)
 		}
 	}
 
